@@ -6,7 +6,7 @@ import re
 
 from ..cfg import CFG
 from ..core import (AnalysisError, DefRef, NotConst, Ref, RegexConst, call_name, calls_in, dotted, enclosing_class,
-                    enclosing_function, func_params, get_kw, norm, qualname_of, walk_no_nested)
+                    enclosing_function, expand_aliases, func_params, get_kw, norm, qualname_of, single_assign_aliases, walk_no_nested)
 from .packer_common import pack_branches, unpack_branches
 
 PROPERTY = "C03"
@@ -143,6 +143,10 @@ def run(ctx):
             raise AnalysisError(f"R3.3: {pname} lacks pack_obj/register")
         cfg = CFG(pack_obj)
         obj = func_params(pack_obj)[1]
+        pal = single_assign_aliases(pack_obj)
+
+        def X(e):
+            return norm(expand_aliases(e, pal))
         # branches on Record / GroupedRecord
         branches = []
         for st in ast.walk(pack_obj):
@@ -176,7 +180,7 @@ def run(ctx):
                 # shape: `if <d>.identifier not in self.descriptors: self.register(<d>, True)` possibly inside `for <d> in obj.descriptors`
                 gif = getattr(enclosing_stmt_of(rc), "_parent", None)
                 guard_ok = isinstance(gif, ast.If) and isinstance(gif.test, ast.Compare) and isinstance(gif.test.ops[0], ast.NotIn) \
-                    and norm(gif.test.left) == norm(rc.args[0]) + ".identifier" and not gif.orelse
+                    and X(gif.test.left) == X(rc.args[0]) + ".identifier" and not gif.orelse
                 ctx.check(guard_ok, "R3.3", f"{construct}:guard-shape", f"register is guarded by `{norm(gif.test) if isinstance(gif, ast.If) else norm(gif)}`, not by "
                           "`<descriptor>.identifier not in <registry>` of the same descriptor", rc, "guard tests the identifier of the descriptor it registers",
                           key=f"R3.3:{construct}:guard-mismatch")
@@ -189,7 +193,7 @@ def run(ctx):
                           "a path reaches the statement that packs the record without having passed the not-yet-emitted test for its descriptor(s): "
                           "a descriptor can stay un-emitted", uses[0], "emit-if-new dominates packing", key=f"R3.3:{construct}:pack-without-emit-check")
                 if isinstance(loop, ast.For):
-                    full = norm(loop.iter) in (f"{obj}.descriptors",) and norm(loop.target) == norm(rc.args[0])
+                    full = X(loop.iter) in (f"{obj}.descriptors",) and norm(loop.target) == norm(rc.args[0])
                     early = [n for n in ast.walk(loop) if isinstance(n, (ast.Break, ast.Continue, ast.Return))]
                     # the loop itself must not be conditional inside the branch
                     cond_parents = []
@@ -208,7 +212,7 @@ def run(ctx):
                     ctx.fail("R3.3", f"{construct}:every-member-descriptor", "member descriptors are not registered in a loop over obj.descriptors", rc,
                              key=f"R3.3:{construct}:no-member-loop")
                 else:
-                    ctx.check(norm(rc.args[0]) == f"{obj}._desc", "R3.3", f"{construct}:own-descriptor", f"registers {norm(rc.args[0])}, not the record's descriptor", rc,
+                    ctx.check(X(rc.args[0]) == f"{obj}._desc", "R3.3", f"{construct}:own-descriptor", f"registers {X(rc.args[0])}, not the record's descriptor", rc,
                               "registers obj._desc")
         # register(notify) reaches on_descriptor on all paths after storing
         rcfg = CFG(reg_fn)
@@ -266,7 +270,13 @@ def run(ctx):
         wcfg = CFG(fn)
         packs = [c for c in calls_in(fn) if norm(c.func) == "self.packer.pack"]
         fpw = [c for c in calls_in(fn) if isinstance(c.func, ast.Attribute) and c.func.attr == "write" and norm(c.func.value) == "self.fp"]
-        ok = bool(packs) and bool(fpw) and all(wcfg.dominates(wcfg.node_of(packs[0]).id, wcfg.node_of(w).id) and wcfg.node_of(packs[0]).id != wcfg.node_of(w).id for w in fpw)
+        def before(pk, w):
+            # an argument of the write call is evaluated before the write happens
+            if any(pk in list(ast.walk(a)) for a in w.args):
+                return True
+            return wcfg.dominates(wcfg.node_of(pk).id, wcfg.node_of(w).id) and wcfg.node_of(pk).id != wcfg.node_of(w).id
+
+        ok = bool(packs) and bool(fpw) and all(before(packs[0], w) for w in fpw)
         ctx.check(ok, "R3.3", f"{wq.split('.')[-1]}.{meth}:pack-before-frame", "the record's frame can be written before pack() (which emits new descriptors) has run", fn,
                   "pack() dominates every fp.write of the frame")
 
